@@ -53,7 +53,7 @@ typedef enum matrix_id {
  */
 static const char *matrix_names[] = {
     "e",
-    "el", "em", "er",
+    "el", "er", "em",
     "ts", "ti", "tx", "tm",
     "um", "ui", "ux", "us",
 };
